@@ -8,7 +8,7 @@ use serde_json::json;
 const RULE: &str = "cases = (input bytes, pattern bytes); oracle = <[u8]>::starts_with/ends_with/strip_prefix/strip_suffix/trim_ascii*, str::trim_start_matches/trim_end_matches (and a loop-strip reference for bytes), str::trim_matches for char patterns; two-sided trim_matches with a multi-char pattern must equal end(start(x)) or start(end(x)); all applicable pattern kinds ([u8],[u8;N],str,char); results compared by address+length; non-trivial = the pattern repeats >=1 time at an end and a partial repetition follows, or the pattern is longer than what remains after >=1 repetition, or whitespace next to a non-whitespace control byte; distinct by (input,pattern)";
 
 #[derive(Serialize, Deserialize, Debug, Clone, Hash)]
-struct Case {
+pub struct Case {
     input: Vec<u8>,
     pat: Vec<u8>,
 }
@@ -120,7 +120,7 @@ macro_rules! str_kind {
     }};
 }
 
-fn run_case(c: &Case) -> Result<(), String> {
+pub fn run_case(c: &Case) -> Result<(), String> {
     let (h, n): (&[u8], &[u8]) = (&c.input, &c.pat);
     let (ts, te) = (ref_trim_start(h, n), ref_trim_end(h, n));
     let e = Expect {
@@ -313,7 +313,7 @@ fn explore(ctx: &mut Ctx) {
 }
 
 /// pattern^r1 ++ partial ++ middle ++ partial ++ pattern^r2
-fn fold_case((p, r1, mid, r2, cut1, cut2): &(Vec<u8>, usize, Vec<u8>, usize, usize, usize)) -> Case {
+pub fn fold_case((p, r1, mid, r2, cut1, cut2): &(Vec<u8>, usize, Vec<u8>, usize, usize, usize)) -> Case {
     let m = |x: &u8| b"ab "[*x as usize];
     let pat: Vec<u8> = p.iter().map(m).collect();
     let mut input = Vec::new();
